@@ -6,7 +6,7 @@ cast_cast_rule / no_op_cast_rule  (host_cast_cast, host_no_op_cast)
   because onnxruntime's python binding cannot feed/fetch bfloat16); chain length 1-3 with every target over the same 13 types
   (biased to contain (FLOAT,FLOAT16|BFLOAT16) resp. a Cast to the incoming dtype); sample values rounding-sensitive
   (f16/bf16 ties, double-rounding triples, f16 overflow boundary 65504/65519/65520, subnormals, 2^24+1, 2^53+1) in three
-  magnitude classes; `saturate` attribute at opset>=19; extra consumer / graph-output use of the inner Cast; chain source as
+  magnitude classes; `saturate`=1 (explicit default) at opset>=19; extra consumer / graph-output use of the inner Cast; chain source as
   graph input or as node output (dtype unknown unless value_info).  Any float->int step is made well defined by a Clip in
   front of the chain ([-100,100] or [0,100]).
   not enumerated: string, float8/int4 types, complex, CastLike, `round_mode` (opset 24), Cast inside functions/subgraphs.
@@ -19,7 +19,8 @@ flatten_to_reshape_rule  (host_flatten)
   drawn: x rank 0-5, dims 1-4 and 0 (zero-size), static / first-dim symbolic / all symbolic / some symbolic / unknown dims,
   x as graph input or node output; axis absent and every value in [-r, r]; dtype over 7 types; twin Flatten nodes on the
   same x with different axes; Flatten output consumed by another node.
-  not enumerated: Flatten of opset < 13 hosts, Flatten inside subgraphs.
+  not enumerated: a zero-size dim inside the flattened head (axis > position of the 0 dim; onnx.reference Flatten cannot
+  evaluate reshape(0,-1) so g.emit refuses it), Flatten of opset < 13 hosts, Flatten inside subgraphs.
 reshape_reshape_rule  (host_reshape_reshape)
   drawn: x rank 0-4 (static/symbolic/zero-size), chains of 2-3 Reshape; each target: plain factorisation sharing a prefix with
   the operand, one -1, one 0 (copy), 0 together with -1, two 0s, all 0s, explicit 0 with allowzero=1 (zero-size), allowzero
@@ -30,7 +31,7 @@ slice_split_rule  (host_slice_split)
   drawn: host opset pinned over {13,15,17,18,19,21,23}; x rank 1-4, last dim 0-8 (even/odd), leading dims static or symbolic,
   last dim symbolic; axes -1 / r-1 / another axis / differing / absent (3-input form) / 2-element; begin0 0 / 1 / -d;
   split point floor / ceil half / gap / overlap; end1 = d / INT64_MAX / INT32_MAX / d+1; steps input [1] on both / one,
-  [2]; node order swapped; a third Slice on the same x; index tensors int64 or int32, Constant / initializer / overridable /
+  [2]; node order [0:h] first or [h:d] first (2/3: the rule was observed to fire only in that order); a third Slice on the same x; index tensors int64 or int32, Constant / initializer / overridable /
   computed from Shape(x).
   not enumerated: Slice-1 attribute form (opset < 10), negative steps.
 no_op_transpose_rule / transpose_transpose_rule  (host_transpose, host_transpose_transpose)
@@ -83,11 +84,11 @@ def _inp(g, dtype, shape, sym=None, style=None):
     dims = list(shape)
     if shape and mode != "static":
         for i in range(len(shape)):
-            hit = {"sym_first": i == 0, "sym_all": True, "sym_last": i == len(shape) - 1}.get(mode)
+            hit = {"sym_first": i == 0, "sym_all": True, "none_all": True, "sym_last": i == len(shape) - 1}.get(mode)
             if hit is None:
                 hit = g.chance(5)
             if hit:
-                dims[i] = None if mode == "none_some" else g.fresh("N")
+                dims[i] = None if mode.startswith("none") else g.fresh("N")
     return g.add_input(dtype, shape, style=style or g.pick(["mixed", "edge", "smallint"]), dims=dims), mode if dims != list(shape) else "static"
 
 
@@ -115,7 +116,7 @@ def _ints(g, xs, dtype=np.int64, how=None):
 
 def _const_or_not(g, arr, tagset):
     """Constant in one of the forms the rules may or may not look through."""
-    how = g.pick(["node", "init", "init", "ovinit", "identity"])
+    how = g.pick(["node", "node", "node", "init", "init", "init", "ovinit", "identity"])
     tagset.add(how)
     if how == "identity":
         c = g.const_array(arr, how="init")
@@ -135,9 +136,9 @@ def _via_node(g, x):
     return r[0] if r else x
 
 
-def _extra_consumer(g, v, outs):
+def _extra_consumer(g, v, outs, none_weight=9):
     """Another use of an inner value: graph output and/or another node."""
-    k = g.pick(["none"] * 7 + ["output", "node", "both"])
+    k = g.pick(["none"] * none_weight + ["output", "node", "both"])
     if v.dtype == BF16:
         k = "none" if k == "output" else ("node" if k == "both" else k)
     if k in ("output", "both"):
@@ -224,14 +225,14 @@ def _cast_chain(g, tag, targets, src):
     for i, t in enumerate(targets):
         attrs = {"to": ONNX_T[t]}
         if g.opset >= 19 and g.chance(2):
-            attrs["saturate"] = g.pick([0, 1])
+            attrs["saturate"] = 1  # explicit default; onnxruntime refuses saturate=0 unless the target is a float8 type
             g.features.add(f"planted:{tag}:saturate_attr")
         r = g.emit("Cast", [cur], **attrs)
         if not r:
             return None
         cur = r[0]
         if i < len(targets) - 1:
-            k = _extra_consumer(g, cur, outs)
+            k = _extra_consumer(g, cur, outs, none_weight=15)
             if k != "none":
                 g.features.add(f"planted:{tag}:inner_extra_{k}")
     if cur.dtype == BF16:
@@ -251,7 +252,7 @@ def _tame_source_dtypes():
 def host_cast_cast(g):
     n = g.pick([2, 2, 2, 3])
     targets = [g.pick(CAST_TYPES) for _ in range(n)]
-    form = g.pick(["allowed", "allowed", "allowed", "random", "reverse", "f64_mid"])
+    form = g.pick(["allowed"] * 5 + ["random", "reverse", "f64_mid"])
     pos = g.draw(st.integers(0, n - 2))
     if form == "allowed":
         targets[pos], targets[pos + 1] = F32, g.pick([F16, BF16])
@@ -367,12 +368,13 @@ def host_flatten(g):
         g.features.add("planted:flatten:zero_size")
 
     def one(exclude=None):
-        if r >= 1 and g.chance(2) and exclude != "absent":
+        if r >= 1 and shape[0] != 0 and g.chance(2) and exclude != "absent":
             g.features.add("planted:flatten:axis_absent")
             return g.emit("Flatten", [x]), "absent"
-        axis = g.draw(st.integers(-r, r))
-        if axis == exclude:
-            axis = axis + 1 if axis < r else -r
+        # onnx.reference Flatten cannot evaluate a flattened head of size 0 (reshape(0, -1)): such axes cannot be emitted
+        ok_axes = [a for a in range(-r, r + 1) if int(np.prod(shape[: a + r if a < 0 else a])) != 0]
+        ok_axes = [a for a in ok_axes if a != exclude] or [0]
+        axis = g.pick(ok_axes)
         cls = "0" if axis == 0 else "1" if axis == 1 else "r" if axis == r else "neg" if axis < 0 else "mid"
         g.features.add(f"planted:flatten:axis_{cls}")
         return g.emit("Flatten", [x], axis=axis), axis
@@ -673,18 +675,29 @@ def host_transpose(g):
 @register("transpose_transpose_rule")
 def host_transpose_transpose(g):
     g.features.add("planted:transpose_transpose")
-    x = _tr_input(g, "transpose_transpose", [0, 1, 2, 2, 3, 3, 3, 4, 4, 5])
+    x = _tr_input(g, "transpose_transpose", [0, 1, 2, 2, 2, 3, 3, 3, 3, 4, 4, 4, 5])
     r = x.rank
-    p1 = _perm(g, r, g.pick(["random", "random", "random", "random", "identity", "absent"]))
-    form = g.pick(["random", "random", "inverse", "same", "identity", "absent"])
+    p1 = _perm(g, r, g.pick(["random"] * 6 + ["identity", "absent"]))
+    form = g.pick(["random", "random", "random", "inverse", "inverse", "same", "identity", "absent"])
     if form == "inverse" and p1 is not None:
         p2 = [p1.index(i) for i in range(r)]
     elif form == "same" and p1 is not None:
         p2 = list(p1)
     else:
         p2 = _perm(g, r, form if form in ("random", "identity", "absent") else "random")
-    g.features.add(f"planted:transpose_transpose:p1_{'absent' if p1 is None else 'given'}")
-    g.features.add(f"planted:transpose_transpose:p2_{'absent' if p2 is None else form}")
+    ident = list(range(r))
+    g.features.add(f"planted:transpose_transpose:p1_{'absent' if p1 is None else 'identity' if p1 == ident else 'given'}")
+    if p2 is None:
+        cls = "absent"
+    elif p1 is not None and [p1[i] for i in p2] == ident:
+        cls = "inverse"
+    elif p2 == ident:
+        cls = "identity"
+    elif p2 == p1:
+        cls = "same"
+    else:
+        cls = "other"
+    g.features.add(f"planted:transpose_transpose:p2_{cls}")
     outs = []
     a = _transpose(g, x, p1)
     if not a:
@@ -796,10 +809,8 @@ def host_squeeze_reshape(g):
     n = g.pick([2, 3, 5])
     kind = g.pick(["one", "one", "one", "n", "n", "n", "zero", "sym_one", "sym_one", "sym_n", "sym_n", "none_n", "r2_1n", "r2_n1", "r2_11", "r0"])
     shape = {"one": (1,), "n": (n,), "zero": (0,), "sym_one": (1,), "sym_n": (n,), "none_n": (n,), "r2_1n": (1, n), "r2_n1": (n, 1), "r2_11": (1, 1), "r0": ()}[kind]
-    sym = "sym_all" if kind.startswith("sym") else "none_some" if kind == "none_n" else "static"
+    sym = "sym_all" if kind.startswith("sym") else "none_all" if kind == "none_n" else "static"
     x, _ = _inp(g, dt, shape, sym=sym)
-    if kind == "none_n":
-        g.inputs[-1] = (x, [None])
     if g.chance(2):
         x = _via_node(g, x)
         g.features.add("planted:squeeze_reshape:x_node")
